@@ -660,6 +660,13 @@ func TestVerifC16RoundTrip(t *testing.T) {
 	coll := &vfCountingCollector{}
 	modes := make([]int, n)
 	var wg sync.WaitGroup
+	var lateMu sync.Mutex
+	var lateCancels []context.CancelFunc
+	defer func() {
+		for _, c := range lateCancels {
+			c()
+		}
+	}()
 	sem := make(chan struct{}, 48)
 	for i := 0; i < n; i++ {
 		rng := verifkit.Stream("c16rt", i)
@@ -722,6 +729,13 @@ func TestVerifC16RoundTrip(t *testing.T) {
 					if closeBody {
 						resp.Body.Close()
 					}
+				}
+				if mode == 6 {
+					// the call's context stays live: completion must come from the (empty) body ending, not from a later cancel
+					lateMu.Lock()
+					lateCancels = append(lateCancels, cancel)
+					lateMu.Unlock()
+					return
 				}
 				cancel()
 				return
